@@ -299,6 +299,44 @@ def r71(ctx, repo):
            node=(skips or [lp])[0], label="basin type filter")
 
 
+def r71_basin_offer(ctx, repo):
+    """a basin offers what it stores (innate) and what its own basins store
+    – never features it could compute: those belong to the lookup stage
+    after the basins and must be computed from the referrer's settings"""
+    fp = None
+    for st in repo.cls(FB, "Basin").body:
+        if isinstance(st, ast.FunctionDef) and st.name == "features":
+            fp = st
+    if fp is None:
+        raise AnalysisError("Basin.features lost")
+    reads = set()
+    for n in walk(fp):
+        if isinstance(n, ast.Assign) and any(
+                is_self_attr(t, "_features") for t in n.targets):
+            vt = ast.parse(expand_locals(fp, n.value), mode="eval").body
+            for x in ast.walk(vt):
+                if isinstance(x, ast.Attribute) and txt(x.value) in (
+                        "self.ds", "self._ds"):
+                    reads.add(x.attr)
+                elif isinstance(x, ast.Compare) and any(
+                        txt(c) in ("self.ds", "self._ds")
+                        for c in x.comparators):
+                    reads.add("__contains__")
+    if not reads:
+        raise AnalysisError("Basin.features: source of the feature list "
+                            "not recognised")
+    extra = reads - {"features_innate", "features_basin"}
+    ctx.ob("R7.1", not extra,
+           "a basin offers its innate features and those of its own basins "
+           "only" if not extra else
+           f"Basin.features is built from `self.ds.{sorted(extra)[0]}`, "
+           f"which includes features the basin dataset can compute: the "
+           f"referrer takes them from the basin (computed with the basin "
+           f"file's configuration) instead of computing them from its own "
+           f"settings after the basins were asked",
+           node=fp, label="basin offers stored features only")
+
+
 def _priority_sort_orders_types(repo):
     """basins_retrieve sorts the definitions with basin_priority_sorted_key
     and that key orders internal < file < remote (so that a request without
@@ -1786,7 +1824,7 @@ def run(ctx):
     repo = ctx.repo
     ctx.rule("R7.1", "lookup precedence innate > temporary > cached "
              "ancillary > internal > file > any basin > computed; type "
-             "filter", minimum=7)
+             "filter; a basin offers stored features only", minimum=8)
     ctx.rule("R7.2", "every proxy route indexes the origin through the map; "
              "mapped basins wrapped; map read from the referrer", minimum=22)
     ctx.rule("R7.3", "map composition on export (filter, hierarchy child, "
@@ -1801,6 +1839,7 @@ def run(ctx):
     ctx.rule("R7.7", "memoised values of the basin proxies do not depend "
              "on per-call arguments", minimum=9)
     r71(ctx, repo)
+    r71_basin_offer(ctx, repo)
     r72(ctx, repo)
     r73(ctx, repo)
     r74(ctx, repo)
@@ -2053,6 +2092,14 @@ MUTANTS = [
       "            return self._usertemp[feat]\n"
       "        elif feat in self._events:\n"
       "            return self._events[feat]\n"), "R7.1"),
+    ("basin offers every available feature (seeded C06_15)", FB,
+     ("                self._features = sorted(set(self.ds.features_innate\n",
+      "                self._features = sorted(set(self.ds.features\n"),
+     "R7.1"),
+    ("basin offers loaded features", FB,
+     ("                self._features = sorted(set(self.ds.features_innate\n",
+      "                self._features = sorted(set(self.ds.features_loaded\n"),
+     "R7.1"),
     ("ChildNDArray.shape forwarded to the parent", HIEV,
      ("        return tuple([len(self)] + list(hp[self.feat][0].shape))\n",
       "        return hp[self.feat].shape\n"), "R7.6"),
@@ -2416,6 +2463,12 @@ TWINS = [
     ("proxy __getitem__ as guard clauses with a conditional expression", FB,
      _twin_guard_clauses),
     ("origin and map through local aliases", FB, _twin_local_aliases),
+    ("basin feature list from locals", FB,
+     ("                self._features = sorted(set(self.ds.features_innate\n"
+      "                                            + self.ds.features_basin))\n",
+      "                own = self.ds.features_innate\n"
+      "                nested = self.ds.features_basin\n"
+      "                self._features = sorted(set(own) | set(nested))\n")),
     ("gather loops in a helper with positional-only parameters", FB,
      _twin_fetch_events),
     ("load_dataset with early return", FB,
